@@ -9,13 +9,125 @@ set_option linter.unusedSimpArgs false
 namespace Gossamer.C08
 open Gossamer
 
+/-- the transactional key-value fragment (no child-trie deletion, no prefix clears, no ordered reads) -/
+def OpOK0 (CK : Bytes → Bool) : Op → Prop
+  | .put k _ => Logical.isChildKey k = false ∧ CK k = false
+  | .del k => Logical.isChildKey k = false ∧ CK k = false
+  | .get k => Logical.isChildKey k = false ∧ CK k = false
+  | .cput c _ _ => CK c = true
+  | .cdel c _ => CK c = true
+  | .cget c _ => CK c = true
+  | .start => True
+  | .commit => True
+  | .rollback => True
+  | _ => False
+
+theorem ok0_ok {CK : Bytes → Bool} {op : Op} (h : OpOK0 CK op) : OpOK CK op := by
+  cases op <;> simp only [OpOK0] at h <;> first | exact h | exact absurd h id
+
+/-- no child-trie key is marked deleted in any open transaction -/
+def NoCKDel (CK : Bytes → Bool) (t : TS Logical) : Prop :=
+  ∀ d ∈ t.txs, ∀ k ∈ d.c.deletes, CK k = false
+
+section safe
+variable (Hc Hm : Entries → Bytes) (D : Dumper Logical) {CK : Bytes → Bool}
+
+theorem step_noCK (t : TS Logical) (op : Op) (hop : OpOK0 CK op) (h : NoCKDel CK t) :
+    NoCKDel CK (stepTS (idealBackend Hc Hm) D Diff.sortedOrder t op).1 := by
+  obtain ⟨b, txs⟩ := t
+  cases txs with
+  | nil =>
+    cases op <;> simp only [OpOK0] at hop <;> try (exact absurd hop id)
+    all_goals simp only [stepTS, putTS, deleteTS, setChildStorageTS, clearChildStorageTS, startTS,
+      commitTS, rollbackTS, readOp, idealBackend]
+    all_goals first
+      | exact h
+      | (intro d hd; simp at hd; done)
+      | (intro d hd k hk
+         simp only [List.head?_nil, Option.getD_none, List.mem_singleton] at hd
+         subst hd
+         simp [Diff.empty, CDiff.empty] at hk)
+  | cons d r =>
+    have hd := h d (by simp)
+    have hr : ∀ x ∈ r, ∀ k ∈ x.c.deletes, CK k = false := fun x hx => h x (by simp [hx])
+    have hcons : ∀ d', (∀ k ∈ d'.c.deletes, CK k = false) →
+        NoCKDel CK ({ base := b, txs := d' :: r } : TS Logical) := by
+      intro d' hd' x hx
+      rcases List.mem_cons.mp hx with hx | hx
+      · subst hx; exact hd'
+      · exact hr x hx
+    cases op <;> simp only [OpOK0] at hop <;> try (exact absurd hop id)
+    all_goals simp only [stepTS, putTS, deleteTS, setChildStorageTS, clearChildStorageTS, startTS,
+      commitTS, rollbackTS, readOp]
+    · -- put
+      apply hcons
+      intro k hk
+      simp only [Diff.upsert, CDiff.upsert] at hk
+      exact hd k ((KSet.mem_del _ _ _).mp hk).2
+    · exact h
+    · -- del
+      apply hcons
+      intro k hk
+      simp only [Diff.delete, CDiff.delete] at hk
+      rcases (KSet.mem_ins _ _ _).mp hk with hk | hk
+      · rw [hk]; exact hop.2
+      · exact hd k hk
+    · -- cput
+      apply hcons
+      intro k hk
+      simp only [Diff.upsertChild] at hk
+      exact hd k ((KSet.mem_del _ _ _).mp hk).2
+    · exact h
+    · -- cdel
+      apply hcons
+      intro k hk
+      exact hd k hk
+    · -- start
+      simp only [List.head?_cons, Option.getD_some]
+      intro x hx
+      rcases List.mem_cons.mp hx with hx | hx
+      · subst hx; exact hd
+      · exact h x hx
+    · -- commit
+      cases r with
+      | nil =>
+        simp only []
+        split <;> (intro x hx; simp at hx)
+      | cons u r' =>
+        intro x hx
+        rcases List.mem_cons.mp hx with hx | hx
+        · subst hx; exact hd
+        · exact hr x (by simp [hx])
+    · exact hr
+
+theorem safe_of_ok0 (ops : List Op) (hops : ∀ op ∈ ops, OpOK0 CK op) :
+    ∀ (t : TS Logical), NoCKDel CK t → SafeRun Hc Hm D CK t ops := by
+  induction ops with
+  | nil => intro t _; trivial
+  | cons op r ih =>
+    intro t ht
+    have hop := hops op (by simp)
+    refine ⟨⟨ok0_ok hop, ?_⟩, ih (fun x hx => hops x (by simp [hx])) _ (step_noCK Hc Hm D t op hop ht)⟩
+    cases op <;> try trivial
+    rename_i c k v
+    cases htx : t.txs with
+    | nil => trivial
+    | cons d r' =>
+      simp only
+      intro hmem
+      have := ht d (by rw [htx]; simp) c hmem
+      simp only [OpOK0] at hop
+      rw [hop] at this; cases this
+
+end safe
+
 section spec
 variable (Hc Hm : Entries → Bytes) {CK : Bytes → Bool}
 
 /-- On the fragment, an operation that is not start/commit/rollback reads and writes only the
     current storage: two specification states with the same current storage give the same
     observable and the same new current storage, and keep their stack shape. -/
-theorem spec_plain (s s' : SS) (h : s.top = s'.top) (op : Op) (hop : OpOK CK op)
+theorem spec_plain (s s' : SS) (h : s.top = s'.top) (op : Op) (hop : OpOK0 CK op)
     (hp : isTx op = false) :
     (specStep Hc Hm s op).2 = (specStep Hc Hm s' op).2 ∧
       (specStep Hc Hm s op).1.top = (specStep Hc Hm s' op).1.top ∧
@@ -29,7 +141,7 @@ theorem spec_plain (s s' : SS) (h : s.top = s'.top) (op : Op) (hop : OpOK CK op)
     intro x l
     unfold SS.setTop
     cases x.stack <;> rfl
-  cases op <;> simp only [OpOK] at hop <;> try (exact absurd hop id)
+  cases op <;> simp only [OpOK0] at hop <;> try (exact absurd hop id)
   all_goals try (simp [isTx] at hp; done)
   · -- put
     simp only [specStep, hop.1, Bool.false_eq_true, if_false, top_setTop, len_setTop, h]
@@ -53,7 +165,7 @@ theorem spec_plain (s s' : SS) (h : s.top = s'.top) (op : Op) (hop : OpOK CK op)
     refine ⟨?_, ?_, ?_, ?_⟩ <;> first | trivial | rfl | exact h
 
 /-- plain runs from states with the same current storage -/
-theorem spec_plain_run (xs : List Op) (hops : ∀ op ∈ xs, OpOK CK op)
+theorem spec_plain_run (xs : List Op) (hops : ∀ op ∈ xs, OpOK0 CK op)
     (hp : ∀ op ∈ xs, isTx op = false) :
     ∀ (s s' : SS), s.top = s'.top →
       (specRun Hc Hm s xs).2 = (specRun Hc Hm s' xs).2 ∧
@@ -78,7 +190,7 @@ theorem specRun_append (s : SS) (l1 l2 : List Op) :
 
 /-- specification: with no transaction open, `start ++ xs ++ commit` leaves the committed state
     that `xs` alone leaves -/
-theorem spec_commit_direct (b : Logical) (xs : List Op) (hops : ∀ op ∈ xs, OpOK CK op)
+theorem spec_commit_direct (b : Logical) (xs : List Op) (hops : ∀ op ∈ xs, OpOK0 CK op)
     (hp : ∀ op ∈ xs, isTx op = false) :
     (specRun Hc Hm { back := b, stack := [] } ([Op.start] ++ xs ++ [Op.commit])).1 =
       (specRun Hc Hm { back := b, stack := [] } xs).1 := by
@@ -114,24 +226,25 @@ theorem runTS_append {β τ : Type} (B : Backend β τ) (D : Dumper β) (ord : D
 
 /-- model over the ideal trie: from any state reached on the fragment with no transaction open,
     `start ++ xs ++ commit` leaves exactly the state that `xs` applied directly leaves -/
-theorem commit_direct {t : TS Logical} {s : SS} (h : Sim CK t s) (hd : t.txs = [])
-    (xs : List Op) (hops : ∀ op ∈ xs, OpOK CK op) (hp : ∀ op ∈ xs, isTx op = false) :
+theorem commit_direct {t : TS Logical} {s : SS} (h : Sim CK t s) (hd0 : t.txs = [])
+    (xs : List Op) (hops : ∀ op ∈ xs, OpOK0 CK op) (hp : ∀ op ∈ xs, isTx op = false) :
     (runTS (idealBackend Hc Hm) D Diff.sortedOrder t ([Op.start] ++ xs ++ [Op.commit])).1 =
       (runTS (idealBackend Hc Hm) D Diff.sortedOrder t xs).1 := by
-  have hall : ∀ op ∈ [Op.start] ++ xs ++ [Op.commit], OpOK CK op := by
+  have hall : ∀ op ∈ [Op.start] ++ xs ++ [Op.commit], OpOK0 CK op := by
     intro op hop
     simp only [List.mem_append, List.mem_singleton] at hop
     rcases hop with (rfl | hop) | rfl
     · trivial
     · exact hops op hop
     · trivial
-  have h1 := (sim_run Hc Hm D h _ hall).1
-  have h2 := (sim_run Hc Hm D h _ hops).1
+  have hno : NoCKDel CK t := by intro d hd; rw [hd0] at hd; simp at hd
+  have h1 := (sim_run Hc Hm D h _ (safe_of_ok0 Hc Hm D _ hall t hno)).1
+  have h2 := (sim_run Hc Hm D h _ (safe_of_ok0 Hc Hm D _ hops t hno)).1
   have hs : s = { back := t.base, stack := [] } := by
     obtain ⟨sb, ss⟩ := s
     have e1 := h.back
     have e2 := h.stack
-    simp only [hd, List.map_nil] at e1 e2
+    simp only [hd0, List.map_nil] at e1 e2
     rw [e1, e2]
   rw [hs, spec_commit_direct Hc Hm t.base xs hops hp] at h1
   generalize runTS (idealBackend Hc Hm) D Diff.sortedOrder t ([Op.start] ++ xs ++ [Op.commit]) = ra at h1
